@@ -904,8 +904,8 @@ def run(ctx: Ctx, driver_ok: bool) -> None:
         for d1 in range(len(pool.docs)):
             for d2 in range(len(pool.docs)):
                 for k, op1 in enumerate(first_ops):
-                    if ctx.quick() and (d1 * 7 + d2 * 3 + k) % 2:
-                        continue           # half of the (op, pair) grid per run in the quick tier
+                    if ctx.quick() and (d1 * 7 + d2 * 3 + k) % 3 != ctx.seed % 3:
+                        continue           # a third of the (op, pair) grid per run in the quick tier (seeds 0,1,2: all)
                     run_history(ctx, pi, pool, [[op1, d1, 2], ['iter_errors', d2, 1], ['decode', d2, 1]], drv, 'pairs',
                                 deep=(d1 + d2 * 5 + k) % 23 == 0)
             if ctx.time_left() < 200:
@@ -923,7 +923,7 @@ def run(ctx: Ctx, driver_ok: bool) -> None:
     ctx.extra['explanation'] = ('witness histories of the listed findings; calls aborted inside the xsi:type block; ordered pairs of '
                                 'pool documents (first call %s, then iter_errors and decode of the second%s) + %d seeded histories '
                                 'of length <= %d over %d operations; deep fingerprints on a sample'
-                                % (' / '.join(first_ops), ', half of the grid' if ctx.quick() else '', n, maxlen, len(OPS)))
+                                % (' / '.join(first_ops), ', a third of the grid chosen by the seed' if ctx.quick() else '', n, maxlen, len(OPS)))
 
 
 def search(ctx: Ctx) -> None:
